@@ -18,7 +18,8 @@ Record eobs := EObs {
   e_heap : list nid;              (* RecomputeHeapIDs, sorted *)
   e_reg : list nid;               (* nodes with Graph.Has, sorted *)
   e_obs : list (nid * Z);         (* observer id, observed value; sorted by id *)
-  e_vals : list (nid * Z)         (* Value() of every node created so far, sorted by id *)
+  e_vals : list (nid * Z);        (* Value() of every node created so far, sorted by id *)
+  e_edges : list (nid * list nid) (* registered node -> its linked inputs, sorted *)
 }.
 
 Definition sortn (l : list nid) : list nid := merge_sort Nat.le l.
@@ -66,7 +67,8 @@ Proof. intros a b. unfold ev_le. apply _. Defined.
 Definition sort_events (l : list event) : list event := merge_sort ev_le l.
 
 Definition observe_state (sorted : bool) (c : errclass) (s : state) : eobs :=
-  EObs false c (if sorted then sort_events (rev (log s)) else rev (log s)) (numNodes s) (sortn (Heap.ids (heap s))) (reg_of s) (obs_of s) (vals_of s).
+  EObs false c (if sorted then sort_events (rev (log s)) else rev (log s)) (numNodes s) (sortn (Heap.ids (heap s))) (reg_of s) (obs_of s) (vals_of s)
+       (map (fun n => (n, sortn (parents (nd s n)))) (reg_of s)).
 
 (* which projection differs first; 0 = none *)
 Definition diff_code (a b : eobs) : nat :=
@@ -77,6 +79,7 @@ Definition diff_code (a b : eobs) : nat :=
   else if negb (bool_decide (e_reg a = e_reg b)) then 5
   else if negb (bool_decide (e_obs a = e_obs b)) then 6
   else if negb (bool_decide (e_vals a = e_vals b)) then 7
+  else if negb (bool_decide (e_edges a = e_edges b)) then 12
   else 0.
 
 (* (operation index, code): 8 = operation not well-formed, 9 = out of fuel,
